@@ -31,10 +31,20 @@ def check(n, m, codes, mi, gi, mode, mx, wide_alphabet):
     else:
         a1 = a2 = Alphabet([0, 1])
         smat = SubstitutionMatrix(a1, a2, np.array(mat, dtype=np.int32))
+        # the same scores held in memory differently: a Fortran-ordered array and the transpose of the transposed matrix
+        # (score matrices that are not C-contiguous)
+        layouts = [SubstitutionMatrix(a1, a2, np.asfortranarray(np.array(mat, dtype=np.int32))),
+                   SubstitutionMatrix(a2, a1, np.array(mat, dtype=np.int32).T.copy()).transpose()]
     s1, s2 = GeneralSequence(a1), GeneralSequence(a2)
     s1.code = np.array(c1, dtype=np.uint8)
     s2.code = np.array(c2, dtype=np.uint16 if wide_alphabet else np.uint8)
     alns = align_optimal(s1, s2, smat, gap_penalty=gap, terminal_penalty=term, local=local, max_number=MAXN[mx])
+    if not wide_alphabet:
+        for lay in layouts:
+            other = align_optimal(s1, s2, lay, gap_penalty=gap, terminal_penalty=term, local=local, max_number=MAXN[mx])
+            if [(x.score, x.trace.tolist()) for x in other] != [(x.score, x.trace.tolist()) for x in alns]:
+                return (f"the same scores in another memory layout (strides {lay.score_matrix().strides}) give score "
+                        f"{other[0].score if other else None}, the C-ordered matrix gives {alns[0].score if alns else None}")
     if not alns or len(alns) > MAXN[mx]:
         return f"{len(alns)} alignments for max_number={MAXN[mx]}"
     seen = set()
